@@ -152,6 +152,8 @@ def _local(case, interleave):
             out.append(codec.enc(fake(s)))
         except Exception as e:  # noqa
             out.append({"$raised": type(e).__name__})
+    from ..c17_worker import _random_methods
+    out.append(codec.enc(_random_methods()))
     return out
 
 
@@ -193,9 +195,11 @@ def check(case, ctx):
             # Known finding (narrow): only fresh interpreters disagree, and only at positions whose
             # schema holds a negated character class.
             key = "not-reproducible"
-            if not name.startswith("in-process") and all(_hash_sensitive(case["specs"][j]) for j in diff):
+            n = len(case["specs"])      # (position n = one call of every method of Random after the schemas)
+            if not name.startswith("in-process") and all(j < n and _hash_sensitive(case["specs"][j]) for j in diff):
                 key = "negated-class-hash-order"
-            v = Violation(key, f"seed {case['seed']!r}, schema #{i} {specs.build(case['specs'][i])!r}: "
+            what = f"schema #{i} {specs.build(case['specs'][i])!r}" if i < n else "the calls of Random's own methods after the schemas"
+            v = Violation(key, f"seed {case['seed']!r}, {what}: "
                                f"{ref_name} -> {ref[i]!r}, {name} -> {out[i]!r}")
             if key == "not-reproducible":
                 raise v
